@@ -533,6 +533,7 @@ func colTypeIDs(cols []c14Col) map[string]string {
 //      (elements whose conversion is implementation-defined are skipped).
 func c14Oracle(in c14In, steps []c14StepObs) (v c14Verdict, inDomain bool, nontrivial bool) {
 	v.Holds, inDomain = true, true
+	reorderedSeen := false
 	fail := func(class, detail string) {
 		if v.Holds {
 			v.Holds, v.Class, v.Detail = false, class, detail
@@ -628,16 +629,10 @@ func c14Oracle(in c14In, steps []c14StepObs) (v c14Verdict, inDomain bool, nontr
 					continue // the request created the bucket from its own columns
 				}
 				// per column name: stored value = Go conversion of the supplied value
-				reordered := false
-				pos := 0
-				for _, c := range b.Cols {
+				for pos, c := range b.Cols {
 					if pos < len(sc) && sc[pos].Name != c.Name {
-						reordered = true
+						reorderedSeen = true
 					}
-					pos++
-				}
-				if reordered {
-					inDomain = false
 				}
 				bt := colTypeIDs(sc)
 				for _, c := range b.Cols {
@@ -664,10 +659,7 @@ func c14Oracle(in c14In, steps []c14StepObs) (v c14Verdict, inDomain bool, nontr
 					got := finalCols[b.Key][c.Name]
 					if (idx+1)*dsz > len(got) || string(got[idx*dsz:(idx+1)*dsz]) != string(want) {
 						class := ""
-						switch {
-						case reordered:
-							class = "reordered-columns-stored-by-position"
-						case f32edge:
+						if f32edge {
 							class = "int-to-float32-double-rounding"
 						}
 						fail(class, fmt.Sprintf("request %d bucket %s column %s (%s -> %s) row epoch=%d: stored %x, Go conversion gives %x",
@@ -685,6 +677,7 @@ func c14Oracle(in c14In, steps []c14StepObs) (v c14Verdict, inDomain bool, nontr
 			}
 		}
 	}
+	_ = reorderedSeen
 	return v, inDomain, nontrivial
 }
 
